@@ -184,3 +184,14 @@ CHECKS["C11"] = dict(
                                   "known finding C13-late-write-accepted applies here too (writes through ended handles)"],
     parts=[P("ext", "seq", "TestC11", dict(checks=96, shards=8, timeout=900), dict(checks=4000, shards=16, timeout=3400))],
 )
+
+CHECKS["C15"] = dict(
+    level="exploration",
+    rule=("rapid-generated concurrent client programs: 3-8 goroutines x 2-14 operations each (autocommit and own-transaction Set/SetReader/Create/Delete/Get/GetReader/GetKeys, Begin at any level, Commit, Rollback, explicit collector runs) over one DB handle and 1-3 shared keys, "
+          "each transaction owned by one goroutine, background collector period 1 ms; profiles cold (all goroutines released together right after Open, so first uses of lazily built components coincide) and warm, inline and (a quarter of the cases) through the in-process gRPC server. "
+          "Each program runs in a fresh child process of a -race build on the unmodified synchronisation primitives with GORACE=halt_on_error=0; oracle = the Go race detector: every DATA RACE report is a violation, keyed by the unordered pair of top-most fs_db function names of the two accesses; a crash or panic of the program is a violation too. "
+          "non-trivial = >= 3 goroutines issuing >= 3 different operation kinds."),
+    assumptions=["the race detector reports only races the executed schedule exposes through happens-before: a miss is possible, an invented race is not",
+                 "known findings are listed per function pair; a race between any other pair is a violation"],
+    parts=[P("race", "seq", "TestC15", dict(checks=48, shards=8, timeout=900, shrinktime="15s"), dict(checks=1600, shards=16, timeout=3400, shrinktime="30s"), race=True)],
+)
